@@ -38,7 +38,7 @@ func init() {
 			add("shape", "VerifC10Notation", cs("n", 2), 40)
 			add("transform", "VerifC10Expand", cs("h", 3, "v", 4), 100)
 			add("transform", "VerifC11RoundTrip", cs("z", 3, "v", 3), 40)
-			add("transform", "VerifC13Tiles", cs("n", 2, "zk", 25, "e", 25, "ov", 25, "maxrun", 3), 40)
+			add("transform", "VerifC13Tiles", cs("n", 2, "zk", 25, "e", 25, "ov", 25, "maxrun", 3, "dz", 0), 40)
 			add("common", "VerifC20Sets", cs("n1", 2, "n2", 2), 40)
 			add("detector", "VerifC05ExtArray", cs("n1", 2, "n2", 1, "h", 3, "v", 2, "hm", 5, "vm", 5), 40)
 			add("detector", "VerifC16Op", cs("op", 2, "h", 3, "v", 3, "mix", 0, "orders", 1), 100)
